@@ -337,7 +337,7 @@ EXTREME_UNITS = {"Distance": ["Mile", "NauticalMile", "Kilometer", "Line", "Mill
                  "Velocity": ["KT", "KMH"], "Pressure": ["Bar", "PSI"], "Weight": ["Newton", "Kilogram", "Pound"],
                  "Energy": ["Joule"]}
 HOT_SLOTS = ["distance", "distance", "distance", "drop", "adjustment", "angular", "temperature", "velocity",
-             "target_height", "sight_height"]
+             "target_height", "sight_height", "length", "diameter", "weight", "pressure", "twist"]
 
 
 def pick_slot(rng):
